@@ -602,7 +602,8 @@ theorem WF_addOut (g : G) (o : Nat) (n : String) (w : Nat) (h : WF g) : WF (addO
       | none =>
         simp only [Option.isSome_none, Bool.false_eq_true, ite_false, andThen]
         obtain ⟨r3, r4⟩ := setSource_rel g w wr hw
-        exact WF_attach_gen h rfl rfl r3 r4 _ o w ob wr ho hw rfl rfl _ (lists_out g) (fun _ => Or.inl (by simp))
+        exact WF_attach_gen (g1 := modWire g w fun wr => { wr with source := some g.ports.length }) h rfl rfl r3 r4 _ o w ob wr ho hw
+          rfl rfl _ (lists_out g) (fun _ => Or.inl (by simp))
 
 /-- `addInOut` on ordinary wires: the InOutPort of a primitive becomes the source and is listed in `inOutPorts`,
     which `checkPort` accepts since commit 2aca8d4 -/
